@@ -8,6 +8,7 @@ package sched
 import (
 	"fmt"
 	"strings"
+	"time"
 )
 
 type thread struct {
@@ -17,12 +18,13 @@ type thread struct {
 	blocked *WaitGroup // waiting for this group to reach zero
 }
 
-// decision is one scheduling point at which more than one thread was enabled.
+// decision is one scheduling point at which more than one thread was enabled. The enabled
+// threads are in canonical order (running thread first if enabled, then ascending ids); only
+// their number is kept (an execution can have millions of decisions).
 type decision struct {
-	enabled []int // canonical order: running thread first if enabled, then ascending ids
-	chosen  int   // index into enabled
+	n       uint8 // number of enabled threads
+	chosen  uint8 // index into the canonical order
 	running bool  // the running thread was still enabled (choosing another one is a preemption)
-	site    int
 }
 
 type run struct {
@@ -35,6 +37,7 @@ type run struct {
 	failure   string
 	doneCh    chan struct{}
 	traceOn   bool
+	buf       []int
 }
 
 var active *run
@@ -43,6 +46,8 @@ var active *run
 func Active() bool { return active != nil }
 
 func (r *run) enabledList() (list []int, running bool) {
+	list = r.buf[:0]
+	defer func() { r.buf = list }()
 	if r.cur != nil && !r.cur.done && r.cur.blocked == nil {
 		list = append(list, r.cur.id)
 		running = true
@@ -79,7 +84,7 @@ func (r *run) schedule(site int) {
 				choice = 0
 			}
 		}
-		r.decisions = append(r.decisions, decision{enabled: enabled, chosen: choice, running: running, site: site})
+		r.decisions = append(r.decisions, decision{n: uint8(min(len(enabled), 255)), chosen: uint8(choice), running: running})
 	}
 	next := r.threads[enabled[choice]]
 	prev := r.cur
@@ -241,8 +246,9 @@ func Execute(prefix []int, trace bool, body func()) *Execution {
 	<-r.doneCh
 	active = nil
 	x := &Execution{Decisions: len(r.decisions), Points: r.points, Failure: r.failure, Trace: r.trace, decisions: r.decisions}
-	for _, d := range r.decisions {
-		x.Choices = append(x.Choices, d.chosen)
+	x.Choices = make([]int, len(r.decisions))
+	for i, d := range r.decisions {
+		x.Choices[i] = int(d.chosen)
 		if d.running && d.chosen != 0 {
 			x.Preemptions++
 		}
@@ -273,6 +279,7 @@ type Explorer struct {
 	// (the all-default schedule belongs to shard 0).
 	Shard, Shards int
 	MaxSchedules  int64
+	Deadline      time.Time // zero = none; exploration stops (Capped) when it passes
 	Stats         Stats
 	top           int
 }
@@ -287,7 +294,7 @@ func (e *Explorer) Run() *Stats {
 }
 
 func (e *Explorer) explore(prefix []int, depth int) {
-	if e.MaxSchedules > 0 && e.Stats.Schedules >= e.MaxSchedules {
+	if e.stop() {
 		e.Stats.Capped = true
 		return
 	}
@@ -296,16 +303,19 @@ func (e *Explorer) explore(prefix []int, depth int) {
 	if !root || e.Shard == 0 {
 		e.account(x)
 	}
+	// preemptions used before decision i (all choices before i are those of this execution)
+	cost := 0
+	for k := 0; k < len(prefix) && k < len(x.decisions); k++ {
+		if x.decisions[k].running && x.decisions[k].chosen != 0 {
+			cost++
+		}
+	}
 	for i := len(prefix); i < len(x.decisions); i++ {
 		d := x.decisions[i]
-		// preemptions used before decision i (all choices before i are those of this execution)
-		cost := 0
-		for k := 0; k < i; k++ {
-			if x.decisions[k].running && x.decisions[k].chosen != 0 {
-				cost++
-			}
+		if i > len(prefix) && x.decisions[i-1].running && x.decisions[i-1].chosen != 0 {
+			cost++
 		}
-		for alt := 1; alt < len(d.enabled); alt++ {
+		for alt := 1; alt < int(d.n); alt++ {
 			c := cost
 			if d.running {
 				c++ // switching away from a runnable thread is a preemption
@@ -319,10 +329,18 @@ func (e *Explorer) explore(prefix []int, depth int) {
 					continue
 				}
 			}
+			if e.stop() {
+				e.Stats.Capped = true
+				return
+			}
 			next := append(append([]int{}, x.Choices[:i]...), alt)
 			e.explore(next, depth+1)
 		}
 	}
+}
+
+func (e *Explorer) stop() bool {
+	return (e.MaxSchedules > 0 && e.Stats.Schedules >= e.MaxSchedules) || (!e.Deadline.IsZero() && time.Now().After(e.Deadline))
 }
 
 func (e *Explorer) account(x *Execution) {
@@ -338,7 +356,7 @@ func (e *Explorer) account(x *Execution) {
 	}
 	if violation != "" {
 		outcome = "VIOLATION"
-		if len(e.Stats.Failures) < 20 {
+		if len(e.Stats.Failures) < 5 {
 			e.Stats.Failures = append(e.Stats.Failures, violation)
 			e.Stats.FailChoices = append(e.Stats.FailChoices, append([]int{}, x.Choices...))
 		}
